@@ -92,6 +92,23 @@ def run(chk):
                         elif ty.endswith("TextAttribute") and e[1] not in attr_l:
                             attr_l.append(e[1])
     if wb is not ob and not attr_l:
+        # (c) the helper builds the cell from its own `ch` / `attribute` locals and returns the aggregate
+        for bi, k in wb.defs.get(0, []):
+            if k == "term":
+                continue
+            rv = wb.blocks[bi]["stmts"][k]["rv"]
+            if rv["k"] == "agg" and (rv.get("adt") or "").endswith("AttributedChar"):
+                for o in rv["ops"]:
+                    e = eb.operand(o)
+                    while e[0] in ("ref", "deref"):
+                        e = e[1]
+                    if e[0] == "var" and isinstance(e[1], int):
+                        ty = wb.tys(e[1])
+                        if ty == "char" and e[1] not in ch_l:
+                            ch_l.append(e[1])
+                        elif ty.endswith("TextAttribute") and e[1] not in attr_l:
+                            attr_l.append(e[1])
+    if wb is not ob and not attr_l:
         for bi, k in wb.defs.get(0, []):
             if k == "term":
                 continue
@@ -197,14 +214,14 @@ def run(chk):
                     chk.obligation(False)
                     chk.finding("optimize|cell-mutated|%s" % (t["callee"].get("resolved") or "").split("::")[-1], rule="R-OPT-ARM", where="%s:%s" % (wb.file, t["line"]), fn=wb.short(),
                                 what="the rewritten cell is handed out mutably to `%s`" % (t["callee"].get("resolved") or "?").split("::")[-1])
-        if form_b:
+        if wb is not ob:
             # the helper is given the cell just read and its result is what is stored, at the same position
             hc = [(bi, t) for bi, t in ob.calls() if (t["callee"].get("resolved") or "") == wb.id]
             oeb = ExprBuilder(ob)
             okh = len(hc) == 1
             if okh:
-                pi = [i for i in range(1, wb.argc + 1) if i == cell]
-                okh = bool(pi) and "get_char(" in show(oeb.operand(hc[0][1]["args"][pi[0] - 1]))
+                pi = [i for i in range(1, wb.argc + 1) if wb.tys(i).endswith("AttributedChar")]
+                okh = len(pi) == 1 and (not form_b or pi[0] == cell) and "get_char(" in show(oeb.operand(hc[0][1]["args"][pi[0] - 1]))
                 sc = [(bi, t) for bi, t in ob.calls() if (t["callee"].get("resolved") or "").endswith("Layer::set_char")]
                 okh = okh and len(sc) == 1 and show(oeb.operand(sc[0][1]["args"][2])).startswith(wb.id.split("::")[-1] + "(")
             chk.obligation(okh)
@@ -308,16 +325,38 @@ def run(chk):
                 chk.finding("get_shape|block-guard|%s" % (show(gd[1])[:60] if gd else None), rule="R-SHAPE", where="%s:%s" % (sb.file, sb.line), fn="get_shape",
                             what="GlyphShape::Block must be returned exactly when `ones == font.size.width * font.size.height` for the glyph's own font (guard: %s)" % (show(gd[1]) if gd else None))
     chk.floor("R-SHAPE", "classified return values of get_shape", nshape, 2)
-    geb = ExprBuilder(gb)
-    calls = [(bi, t) for bi, t in gb.calls() if (t["callee"].get("resolved") or "") == SHAPE]
+    # generate_shape_map itself or the closures nested in it (an iterator chain instead of the two loops)
+    fam = [gb] + [cb_ for cid_, cb_ in sorted(f.bodies.items()) if cb_.kind == "closure" and cid_.startswith(GEN + "::{closure")]
+    calls = [(cb_, bi, t) for cb_ in fam for bi, t in cb_.calls() if (t["callee"].get("resolved") or "") == SHAPE]
     if chk.anchor(len(calls) == 1, "R-SHAPE", "generate_shape_map calls get_shape once"):
-        t = calls[0][1]
-        a0 = strip(geb.operand(t["args"][0]))
-        # the glyph iteration source: into_iter(&(*font).glyphs)
+        cb_, _, t = calls[0]
+        ceb = ExprBuilder(cb_)
+        a0 = strip(ceb.operand(t["args"][0]))
+        home = cb_
+        # a captured variable is the expression it was captured from, in the enclosing body
+        for _ in range(4):
+            if home.kind == "closure" and a0[0] == "field" and strip(a0[1])[:2] == ("var", 1) and a0[2].isdigit():
+                par = f.bodies.get(home.parent) if home.parent != GEN else gb
+                # the enclosing body is the one that builds this closure
+                built = None
+                for pb_ in fam:
+                    peb = ExprBuilder(pb_)
+                    for _, _, st_ in pb_.stmts():
+                        if st_["k"] == "assign" and st_["rv"]["k"] == "agg" and st_["rv"].get("ak") == "closure" and st_["rv"].get("def") == home.id:
+                            built = (pb_, peb, st_["rv"]["ops"])
+                if built is None or int(a0[2]) >= len(built[2]):
+                    break
+                home = built[0]
+                a0 = strip(built[1].operand(built[2][int(a0[2])]))
+            else:
+                break
+        heb = ExprBuilder(home)
+        # the glyph iteration source in that body: into_iter(&(*font).glyphs) / (*font).glyphs.iter()
         src = None
-        for bi, t2 in gb.calls():
-            if (t2["callee"].get("resolved") or "").endswith("IntoIterator>::into_iter"):
-                e = geb.operand(t2["args"][0])
+        for bi, t2 in home.calls():
+            r2 = t2["callee"].get("resolved") or ""
+            if (r2.endswith("::into_iter") or r2.endswith("::iter")) and t2["args"]:
+                e = heb.operand(t2["args"][0])
                 if show(e).endswith(".glyphs"):
                     x = strip(e)
                     if x[0] == "field":
